@@ -174,11 +174,16 @@ def run(R, tier, seed, driver_ok):
                         if name == 'RCA_Supervised':
                             est.set_params(**{k: v for k, v in zoo.fix_params(name, est.get_params(), X, y).items() if k in ('n_chunks', 'chunk_size')})
                         kw = {}
+                        one_class = name == 'ITML' and rng.rand() < 0.3
+                        if one_class:
+                            # legal pair labels that happen to be all similar / all dissimilar: the threshold of this fit is
+                            # still a function of this fit alone
+                            fa = (fa[0], np.full(len(fa[1]), int(rng.choice([1, -1]))))
                         if name == 'ITML' and rng.rand() < 0.5:
                             kw['bounds'] = np.array([0.0, float(rng.uniform(2, 6))]) if rng.rand() < 0.5 else np.array([0.5, 3.0])
                         if name == 'LSML' and rng.rand() < 0.5:
                             kw['weights'] = rng.uniform(0.5, 2.0, size=len(fa[0]))
-                        if name in zoo.PAIRS and not name.endswith('_Supervised') and rng.rand() < 0.6:
+                        if name in zoo.PAIRS and not name.endswith('_Supervised') and rng.rand() < 0.6 and not one_class:
                             # ONE dict object per history, handed to every fit of that history (a caller re-using its settings)
                             if cal_shared is None:
                                 strat = ['f_beta', 'max_tpr', 'max_tnr', 'accuracy'][int(rng.randint(4))]
